@@ -45,6 +45,7 @@ class Tracer:
     ['write', view, [lumps changed]].  Installed by patching class attributes; `uninstall` restores them."""
     def __init__(self) -> None:
         self.events: list = []
+        self.stack: list = []
         self.on = False
         self._orig_get = ParsedLump.__get__
         self._orig_set = ParsedLump.__set__
@@ -58,10 +59,24 @@ class Tracer:
             if instance is None or not tracer.on:
                 return orig_get(desc, instance, owner)
             hit = desc.lump in instance._parsed_lumps
-            tracer.events.append(['get', desc.__name__, hit])
-            res = orig_get(desc, instance, owner)
-            if not hit:
-                tracer.events.append(['parsed', desc.__name__])
+            name = desc.__name__
+            if hit:
+                # one event per (enclosing reader/writer, view): loops touch a view thousands of times
+                seen = tracer.stack[-1] if tracer.stack else None
+                if seen is None or name not in seen:
+                    tracer.events.append(['get', name, True])
+                    if seen is not None:
+                        seen.add(name)
+                return orig_get(desc, instance, owner)
+            tracer.events.append(['get', name, False])
+            if tracer.stack:
+                tracer.stack[-1].add(name)
+            tracer.stack.append(set())
+            try:
+                res = orig_get(desc, instance, owner)
+            finally:
+                tracer.stack.pop()
+            tracer.events.append(['parsed', name])
             return res
 
         def traced_set(desc, instance, value):
@@ -84,11 +99,22 @@ class Tracer:
                 return func(bsp, data)
             tracer.events.append(['pop', view])
             before = raw_snapshot(bsp)
-            res = func(bsp, data)
-            if not isinstance(res, bytes):      # generator: run it now, inside the bracket
-                res = b''.join(res)
+            tracer.stack.append(set())
+            try:
+                res = func(bsp, data)
+                if not isinstance(res, bytes):      # generator: run it now, inside the bracket
+                    res = b''.join(res)
+            finally:
+                tracer.stack.pop()
             after = raw_snapshot(bsp)
-            changed = sorted(k for k in after if after[k] is not before.get(k) and after[k] != before.get(k))
+            # lumps emptied because a view was parsed inside the writer are that parse's effect, not a write
+            start = len(tracer.events) - 1
+            while tracer.events[start] != ['pop', view]:
+                start -= 1
+            cleared = {l for ev in tracer.events[start:] if ev[0] == 'parsed' for l in CLEARS[ev[1]]}
+            # 'set by the writer' = the lump holds another bytes object than before (equal content counts)
+            changed = sorted(k for k in after if after[k] is not before.get(k)
+                             and not (k in cleared and after[k] == b''))
             tracer.events.append(['write', view, changed])
             return res
         return writer
@@ -154,28 +180,29 @@ def deps_from_events(events: list) -> tuple[dict, dict, dict]:
 
 
 def measure(path: str, tracer: Tracer, scratch: str) -> dict:
-    """Reader deps: every view parsed first on a fresh object; writer deps: for every view v a fresh
-    object with exactly v requested, saved.  Returns the constant record of BspLazy."""
+    """One fresh object: every view requested once (each reader runs exactly once, inside its own
+    bracket, whether requested directly or pulled in by another reader), then save() (every writer
+    runs once).  Returns the constant record of BspLazy."""
     read_deps = {v: set() for v in VIEWS}
     write_deps = {v: set() for v in VIEWS}
     write_sets = {v: set() for v in VIEWS}
-    for v in VIEWS:
-        bsp = BSP(path)
-        with tracer.recording():
+    bsp = BSP(path)
+    with tracer.recording():
+        for v in VIEWS:
             getattr(bsp, v)
-            r, _, _ = deps_from_events(tracer.take())
-        for k, s in r.items():
-            read_deps[k] |= s
-        with tracer.recording():
-            quiet_save(bsp, os.path.join(scratch, 'measure.bsp'))
-            ev = tracer.take()
-        r, wd, ws = deps_from_events(ev)
-        for k, s in r.items():
-            read_deps[k] |= s
-        for k, s in wd.items():
-            write_deps[k] |= s
-        for k, s in ws.items():
-            write_sets[k] |= s
+        quiet_save(bsp, os.path.join(scratch, 'measure.bsp'))
+        ev = tracer.take()
+    parsed = [e[1] for e in ev if e[0] == 'parsed']
+    popped = [e[1] for e in ev if e[0] == 'pop']
+    if sorted(set(parsed)) != sorted(VIEWS) or not set(popped) >= set(ORDER):
+        raise RuntimeError(f'measurement incomplete: parsed {sorted(parsed)}, popped {popped}')
+    r, wd, ws = deps_from_events(ev)
+    for k, s in r.items():
+        read_deps[k] |= s
+    for k, s in wd.items():
+        write_deps[k] |= s
+    for k, s in ws.items():
+        write_sets[k] |= s
     lumps = sorted({l for v in VIEWS for l in CLEARS[v]} | {l for s in write_sets.values() for l in s} | {'OTHER'})
     return {
         'views': sorted(VIEWS), 'order': ORDER, 'unordered': UNORDERED, 'lumps': lumps,
@@ -188,76 +215,79 @@ def measure(path: str, tracer: Tracer, scratch: str) -> dict:
 
 # ------------------------------------------------------------------ projection
 class Projector:
-    """Projects parsed objects to JSON-able values. Shared sub-objects are expanded structurally
-    (memoised per object, replaced by a digest once seen) so cross references are compared by
-    content, never by index."""
+    """Projects parsed objects to JSON-able values: dicts carrying a '_t' type label, cross references
+    expanded structurally (so two files project equal iff their parsed content is equal, whatever the
+    indexes in the file are).  One Python dict per object (memoised), so shared objects cost nothing."""
     def __init__(self, bsp: BSP) -> None:
         self.bsp = bsp
         self.memo: dict = {}
         self.keep: list = []
 
-    def dig(self, kind: str, obj, build) -> str:
-        key = (kind, id(obj))
+    def obj(self, kind: str, o, build) -> dict:
+        key = (kind, id(o))
         if key not in self.memo:
-            self.memo[key] = None      # cycle guard
-            self.keep.append(obj)
-            val = build(obj)
-            self.memo[key] = kind + ':' + hashlib.sha1(json.dumps(val, sort_keys=True, default=str).encode()).hexdigest()[:16]
-        elif self.memo[key] is None:
-            return kind + ':cycle'
+            self.keep.append(o)
+            self.memo[key] = {'_t': kind, 'cycle': True}
+            self.memo[key] = dict(build(o), _t=kind)
         return self.memo[key]
 
     @staticmethod
     def vec(v) -> list:
         return [float(v.x), float(v.y), float(v.z)]
 
-    def plane(self, p) -> str:
-        return self.dig('plane', p, lambda p: [self.vec(p.normal), float(p.dist), p.type.value])
+    def plane(self, p) -> dict:
+        return self.obj('Plane', p, lambda p: dict(normal=self.vec(p.normal), dist=float(p.dist), type=p.type.value))
 
     def texinfo(self, t):
         if t is None:
             return None
-        return self.dig('texinfo', t, lambda t: [
-            self.vec(t.s_off), t.s_shift, self.vec(t.t_off), t.t_shift, self.vec(t.lightmap_s_off), t.lightmap_s_shift,
-            self.vec(t.lightmap_t_off), t.lightmap_t_shift, t.flags.value,
-            [t._info.mat, self.vec(t._info.reflectivity), t._info.width, t._info.height]])
+        return self.obj('TexInfo', t, lambda t: dict(
+            s_off=self.vec(t.s_off), s_shift=t.s_shift, t_off=self.vec(t.t_off), t_shift=t.t_shift,
+            lightmap_s_off=self.vec(t.lightmap_s_off), lightmap_s_shift=t.lightmap_s_shift,
+            lightmap_t_off=self.vec(t.lightmap_t_off), lightmap_t_shift=t.lightmap_t_shift, flags=t.flags.value,
+            mat=t._info.mat, reflectivity=self.vec(t._info.reflectivity), width=t._info.width, height=t._info.height))
 
     def edge(self, e) -> list:
         return [self.vec(e.a), self.vec(e.b)]
 
-    def prim(self, p) -> str:
-        return self.dig('prim', p, lambda p: [int(p.is_tristrip), list(p.indexed_verts), [self.vec(v) for v in p.verts]])
+    def prim(self, p) -> dict:
+        return self.obj('Primitive', p, lambda p: dict(is_tristrip=int(p.is_tristrip), indexed_verts=list(p.indexed_verts),
+                                                       verts=[self.vec(v) for v in p.verts]))
 
-    def face(self, f, with_orig: bool = True):
+    def face(self, f):
         if f is None:
             return None
-        return self.dig('face', f, lambda f: [
-            self.plane(f.plane), bool(f.same_dir_as_plane), bool(f.on_node), [self.edge(e) for e in f.edges],
-            self.texinfo(f.texinfo), f._dispinfo_ind, f.surf_fog_volume_id, f.light_styles.hex(), f._lightmap_off,
-            float(f.area), list(f.lightmap_mins), list(f.lightmap_size), self.face(f.orig_face),
-            [self.prim(p) for p in f.primitives], bool(f.dynamic_shadows), f.smoothing_groups, f.hammer_id, f.vitamin_flags])
+        return self.obj('Face', f, lambda f: dict(
+            plane=self.plane(f.plane), same_dir_as_plane=bool(f.same_dir_as_plane), on_node=bool(f.on_node),
+            edges=[self.edge(e) for e in f.edges], texinfo=self.texinfo(f.texinfo), dispinfo=f._dispinfo_ind,
+            surf_fog_volume_id=f.surf_fog_volume_id, light_styles=f.light_styles.hex(), lightmap_off=f._lightmap_off,
+            area=float(f.area), lightmap_mins=list(f.lightmap_mins), lightmap_size=list(f.lightmap_size),
+            orig_face=self.face(f.orig_face), primitives=[self.prim(p) for p in f.primitives],
+            dynamic_shadows=bool(f.dynamic_shadows), smoothing_groups=f.smoothing_groups, hammer_id=f.hammer_id,
+            vitamin_flags=f.vitamin_flags))
 
-    def side(self, s) -> list:
-        return [self.plane(s.plane), self.texinfo(s.texinfo), s._dispinfo, bool(s.is_bevel_plane), s._unknown_bevel_bits]
+    def side(self, s) -> dict:
+        return dict(_t='BrushSide', plane=self.plane(s.plane), texinfo=self.texinfo(s.texinfo), dispinfo=s._dispinfo,
+                    is_bevel_plane=bool(s.is_bevel_plane), unknown_bevel_bits=s._unknown_bevel_bits)
 
-    def brush(self, b) -> str:
-        return self.dig('brush', b, lambda b: [b.contents.value, [self.side(s) for s in b.sides]])
+    def brush(self, b) -> dict:
+        return self.obj('Brush', b, lambda b: dict(contents=b.contents.value, sides=[self.side(s) for s in b.sides]))
 
-    def leaf(self, lf) -> str:
-        return self.dig('leaf', lf, lambda lf: [
-            lf.contents.value, lf.cluster_id, lf.area, lf.flags.value, self.vec(lf.mins), self.vec(lf.maxes),
-            [self.face(f) for f in lf.faces], [self.brush(b) for b in lf.brushes], lf.water_id, lf._ambient.hex(),
-            lf.min_water_dist])
+    def leaf(self, lf) -> dict:
+        return self.obj('VisLeaf', lf, lambda lf: dict(
+            contents=lf.contents.value, cluster_id=lf.cluster_id, area=lf.area, flags=lf.flags.value, mins=self.vec(lf.mins),
+            maxes=self.vec(lf.maxes), faces=[self.face(f) for f in lf.faces], brushes=[self.brush(b) for b in lf.brushes],
+            water_id=lf.water_id, ambient=lf._ambient.hex(), min_water_dist=lf.min_water_dist))
 
-    def node(self, n) -> str:
+    def node(self, n) -> dict:
         if isinstance(n, B.VisLeaf):
             return self.leaf(n)
-        return self.dig('node', n, lambda n: [
-            self.plane(n.plane), self.vec(n.mins), self.vec(n.maxes), [self.face(f) for f in n.faces], n.area_ind,
-            self.node(n.child_neg), self.node(n.child_pos)])
+        return self.obj('VisTree', n, lambda n: dict(
+            plane=self.plane(n.plane), mins=self.vec(n.mins), maxes=self.vec(n.maxes), faces=[self.face(f) for f in n.faces],
+            area_ind=n.area_ind, child_neg=self.node(n.child_neg), child_pos=self.node(n.child_pos)))
 
     @staticmethod
-    def kv(tree) -> list | None:
+    def kv(tree):
         if tree is None:
             return None
 
@@ -271,47 +301,49 @@ class Projector:
         bsp = self.bsp
         val = getattr(bsp, name)
         if name == 'pakfile':
-            return [[zi.filename, val.read(zi).hex() if zi.file_size < 64 else hashlib.sha1(val.read(zi)).hexdigest(),
-                     zi.compress_type] for zi in val.infolist()]
+            return [dict(_t='PakEntry', name=zi.filename, data=hashlib.sha1(val.read(zi)).hexdigest(), size=zi.file_size,
+                         compress=zi.compress_type) for zi in val.infolist()]
         if name == 'ents':
             ents = []
             for ent in [val.spawn] + list(val.entities):
-                keys = sorted([k, v] for k, v in ent.items())
                 outs = [[o.output, o.inst_out, o.target, o.input, o.inst_in, o.params, float(o.delay), o.times, bool(o.comma_sep)]
                         for o in ent.outputs]
-                ents.append([keys, outs])
+                ents.append(dict(_t='Entity', keys={k: v for k, v in ent.items()}, outputs=outs))
             return ents
         if name == 'textures':
             return list(val)
         if name == 'texinfo':
             return [self.texinfo(t) for t in val]
         if name == 'cubemaps':
-            return [[self.vec(c.origin), c.size] for c in val]
+            return [dict(_t='Cubemap', origin=self.vec(c.origin), size=c.size) for c in val]
         if name == 'overlays':
-            return [[o.id, self.vec(o.origin), self.vec(o.normal), self.texinfo(o.texture), o.face_count, list(o.faces),
-                     o.render_order, o.u_min, o.u_max, o.v_min, o.v_max, self.vec(o.uv1), self.vec(o.uv2), self.vec(o.uv3),
-                     self.vec(o.uv4), o.fade_min_sq, o.fade_max_sq, o.min_cpu, o.max_cpu, o.min_gpu, o.max_gpu] for o in val]
+            return [dict(_t='Overlay', id=o.id, origin=self.vec(o.origin), normal=self.vec(o.normal), texture=self.texinfo(o.texture),
+                         face_count=o.face_count, faces=list(o.faces), render_order=o.render_order, u_min=o.u_min, u_max=o.u_max,
+                         v_min=o.v_min, v_max=o.v_max, uv1=self.vec(o.uv1), uv2=self.vec(o.uv2), uv3=self.vec(o.uv3),
+                         uv4=self.vec(o.uv4), fade_min_sq=o.fade_min_sq, fade_max_sq=o.fade_max_sq, min_cpu=o.min_cpu,
+                         max_cpu=o.max_cpu, min_gpu=o.min_gpu, max_gpu=o.max_gpu) for o in val]
         if name == 'bmodels':
             vmf = bsp.ents
             order = {id(vmf.spawn): -1}
             order.update({id(e): i for i, e in enumerate(vmf.entities)})
             res = []
             for ent, mdl in val.items():
-                res.append([order.get(id(ent), 'foreign'), self.vec(mdl.mins), self.vec(mdl.maxes), self.vec(mdl.origin),
-                            self.node(mdl.node), [self.face(f) for f in mdl.faces], self.kv(mdl.phys_keyvalues),
-                            [s.hex() for s in mdl._phys_solids]])
-            return sorted(res, key=lambda r: str(r[0]))
+                res.append(dict(_t='BModel', ent=order.get(id(ent), 'foreign'), mins=self.vec(mdl.mins), maxes=self.vec(mdl.maxes),
+                                origin=self.vec(mdl.origin), node=self.node(mdl.node), faces=[self.face(f) for f in mdl.faces],
+                                phys_keyvalues=self.kv(mdl.phys_keyvalues), phys_solids=[s.hex() for s in mdl._phys_solids]))
+            return sorted(res, key=lambda r: str(r['ent']))
         if name == 'brushes':
             return [self.brush(b) for b in val]
         if name == 'visleafs':
             return [self.leaf(lf) for lf in val]
         if name == 'water_leaf_info':
-            return [[x.surface_z, x.min_z, self.texinfo(x.surface_texinfo)] for x in val]
+            return [dict(_t='LeafWaterInfo', surface_z=x.surface_z, min_z=x.min_z, surface_texinfo=self.texinfo(x.surface_texinfo))
+                    for x in val]
         if name == 'nodes':
             return [self.node(n) for n in val]
         if name == 'visibility':
-            return None if val is None else [[bytes(r).hex() for r in val.potentially_visible],
-                                             [bytes(r).hex() for r in val.potentially_audible]]
+            return None if val is None else dict(_t='Visibility', pvs=[bytes(r).hex() for r in val.potentially_visible],
+                                                 pas=[bytes(r).hex() for r in val.potentially_audible])
         if name == 'vertexes':
             return [self.vec(v) for v in val]
         if name == 'surfedges':
@@ -327,28 +359,64 @@ class Projector:
             res = []
             for p in val:
                 sc = p.scaling
-                res.append([p.model, self.vec(p.origin), [p.angles.pitch, p.angles.yaw, p.angles.roll],
-                            self.vec(sc) if not isinstance(sc, (int, float)) else float(sc),
-                            sorted((leaf_ix.get(id(lf), -1), self.leaf(lf)) for lf in p.visleafs), p.solidity, p.flags.value,
-                            p.skin, p.min_fade, p.max_fade, self.vec(p.lighting), p.fade_scale, p.min_dx_level, p.max_dx_level,
-                            p.min_cpu_level, p.max_cpu_level, p.min_gpu_level, p.max_gpu_level, self.vec(p.tint), p.renderfx,
-                            bool(p.disable_on_xbox), p.lightmap_x, p.lightmap_y])
-            return [bsp.static_prop_version.name, res]
+                leafs = sorted(((leaf_ix.get(id(lf), -1), lf) for lf in p.visleafs), key=lambda t: t[0])
+                res.append(dict(
+                    _t='StaticProp', model=p.model, origin=self.vec(p.origin), angles=[p.angles.pitch, p.angles.yaw, p.angles.roll],
+                    scaling=self.vec(sc) if not isinstance(sc, (int, float)) else float(sc),
+                    visleafs=[self.leaf(lf) for _, lf in leafs], solidity=p.solidity, flags=p.flags.value,
+                    skin=p.skin, min_fade=p.min_fade, max_fade=p.max_fade, lighting=self.vec(p.lighting), fade_scale=p.fade_scale,
+                    min_dx_level=p.min_dx_level, max_dx_level=p.max_dx_level, min_cpu_level=p.min_cpu_level,
+                    max_cpu_level=p.max_cpu_level, min_gpu_level=p.min_gpu_level, max_gpu_level=p.max_gpu_level,
+                    tint=self.vec(p.tint), renderfx=p.renderfx, disable_on_xbox=bool(p.disable_on_xbox),
+                    lightmap_x=p.lightmap_x, lightmap_y=p.lightmap_y))
+            return dict(_t='StaticProps', version=bsp.static_prop_version.name, props=res)
         if name == 'detail_props':
             res = []
             for p in val:
-                row = [type(p).__name__, self.vec(p.origin), [p.angles.pitch, p.angles.yaw, p.angles.roll], p.orientation.value,
-                       p.leaf, list(p.lighting), list(p._light_styles), p.sway_amount]
+                row = dict(_t='DetailProp', kind=type(p).__name__, origin=self.vec(p.origin),
+                           angles=[p.angles.pitch, p.angles.yaw, p.angles.roll], orientation=p.orientation.value, leaf=p.leaf,
+                           lighting=list(p.lighting), light_styles=list(p._light_styles), sway_amount=p.sway_amount)
                 if isinstance(p, B.DetailPropModel):
-                    row.append(p.model)
+                    row['model'] = p.model
                 else:
-                    row += [p.sprite_scale, list(p.dims_upper_left), list(p.dims_lower_right), list(p.texcoord_upper_left),
-                            list(p.texcoord_lower_right)]
+                    row.update(sprite_scale=p.sprite_scale, dims_upper_left=list(p.dims_upper_left),
+                               dims_lower_right=list(p.dims_lower_right), texcoord_upper_left=list(p.texcoord_upper_left),
+                               texcoord_lower_right=list(p.texcoord_lower_right))
                     if isinstance(p, B.DetailPropShape):
-                        row += [bool(p.is_cross), p.shape_angle, p.shape_size]
+                        row.update(is_cross=bool(p.is_cross), shape_angle=p.shape_angle, shape_size=p.shape_size)
                 res.append(row)
             return res
         raise KeyError(name)
+
+
+def diff_labels(a, b, label: str, out: set, seen: set | None = None) -> set:
+    """The set of field labels ('Type.field', 'view:len', ...) at which two projections differ."""
+    if seen is None:
+        seen = set()
+    if a is b:
+        return out
+    if type(a) is not type(b):
+        out.add(label + ':type')
+        return out
+    if isinstance(a, dict):
+        key = (id(a), id(b))
+        if key in seen:
+            return out
+        seen.add(key)
+        typ = a.get('_t', label)
+        for k in sorted(set(a) | set(b)):
+            if k not in a or k not in b:
+                out.add(f'{typ}.{k}:missing')
+            else:
+                diff_labels(a[k], b[k], f'{typ}.{k}', out, seen)
+    elif isinstance(a, list):
+        if len(a) != len(b):
+            out.add(label + ':len')
+        for x, y in zip(a, b):
+            diff_labels(x, y, label, out, seen)
+    elif a != b:
+        out.add(label)
+    return out
 
 
 PROJECT_ORDER = ['ents', 'textures', 'texinfo', 'planes', 'vertexes', 'surfedges', 'primitives', 'orig_faces', 'faces',
@@ -357,8 +425,11 @@ PROJECT_ORDER = ['ents', 'textures', 'texinfo', 'planes', 'vertexes', 'surfedges
 assert sorted(PROJECT_ORDER) == sorted(VIEWS), sorted(set(VIEWS) ^ set(PROJECT_ORDER))
 
 
-def digest(val) -> str:
-    return hashlib.sha1(json.dumps(val, sort_keys=True, default=str).encode()).hexdigest()[:20]
+def is_trivial(val) -> bool:
+    """A view with no content: losing it cannot be observed."""
+    if val is None or val == []:
+        return True
+    return isinstance(val, dict) and val.get('_t') == 'StaticProps' and not val['props']
 
 
 def project_file(path: str) -> dict:
@@ -376,7 +447,19 @@ def project_file(path: str) -> dict:
         try:
             views[name] = proj.view(name)
         except Exception as exc:   # a lump the reader can no longer parse is a (reported) difference
-            views[name] = ['UNREADABLE', type(exc).__name__]
+            views[name] = {'_t': 'UNREADABLE', 'error': type(exc).__name__}
             errors[name] = f'{type(exc).__name__}: {exc}'
     return {'head': head, 'meta': meta, 'raw': raw, 'views': views, 'errors': errors,
             'game_order': [lump_name(k) for k in bsp.game_lumps]}
+
+
+def compare_files(ref: dict, new: dict) -> dict:
+    """Differences of two project_file() results, as lists the trace specification judges."""
+    head = sorted(k for k in ref['head'] if ref['head'][k] != new['head'].get(k))
+    meta = sorted(k for k in set(ref['meta']) | set(new['meta']) if ref['meta'].get(k) != new['meta'].get(k))
+    changed = sorted(k for k in set(ref['raw']) | set(new['raw']) if ref['raw'].get(k) != new['raw'].get(k))
+    view_diff = []
+    for name in PROJECT_ORDER:
+        for lab in sorted(diff_labels(ref['views'][name], new['views'][name], name, set())):
+            view_diff.append([name, lab])
+    return {'headDiff': head, 'metaDiff': meta, 'changed': changed, 'viewDiff': view_diff}
